@@ -69,6 +69,7 @@ class Engine:
         self.opaque_methods, self.opaque_fields, self.opaque_isinstance, self.external_isinstance = {}, {}, {}, {}
         self.frame_hook = None
         self.verifying = set()
+        self.opaque_truth, self.opaque_pytype = {}, {}
 
     def exc_class_chain(self, cls):
         """names of all classes in the exception hierarchy above cls (ClassInfo or builtin name)"""
